@@ -29,6 +29,10 @@ type DistributedAllocator struct {
 
 	// Epoch period for lease mode
 	epochPeriod time.Duration
+
+	// Grace epochs of the lease-mode allocator (a record whose epoch is more
+	// than this many epochs behind the current one has expired)
+	epochGrace uint64
 }
 
 // DistributedStats holds statistics for the distributed allocator.
@@ -144,6 +148,7 @@ func NewDistributedAllocator(cfg DistributedConfig, store Store) (*DistributedAl
 			return nil, fmt.Errorf("create epoch allocator: %w", err)
 		}
 		da.epochAllocator = epochAlloc
+		da.epochGrace = grace
 
 	default:
 		// Use standard IP allocator for session mode (no expiry)
@@ -425,11 +430,12 @@ func (da *DistributedAllocator) epochLoop(ctx context.Context) {
 // cleanupExpiredFromStore removes expired allocations from the distributed store.
 // This is a background cleanup task - the epoch allocator handles local expiration lazily.
 func (da *DistributedAllocator) cleanupExpiredFromStore(ctx context.Context, currentEpoch uint64) {
-	if currentEpoch < 2 {
+	if currentEpoch <= da.epochGrace {
 		return
 	}
 
-	threshold := currentEpoch - 2 // Match epoch allocator's grace period logic
+	// Same rule as the epoch allocator: expired once more than epochGrace epochs behind
+	threshold := currentEpoch - da.epochGrace
 
 	results, err := da.store.Query(ctx, da.keyPrefix())
 	if err != nil {
